@@ -41,7 +41,8 @@
    OPERATORS (one per listed call)
      OpWrite OpWriteByte OpWriteRune (Write/WriteString/WriteByte/WriteRune), OpRead OpNext
      OpReadByte OpReadRune OpUnreadByte OpUnreadRune OpReadSlice (ReadBytes/ReadString) OpTruncate
-     OpReset OpGrow OpReadFrom OpWriteTo OpLen OpContents (Bytes/String); New(b) = constructor.
+     OpReset OpGrow OpReadFrom OpWriteTo OpLen OpContents (Bytes/String) OpNilString (String on
+     a nil pointer); New(b) = the constructors (NewBuffer / NewBufferString / zero value).
      Decode / Encode are unicode/utf8's DecodeRune / AppendRune written over integers (lead-byte
      table Need, accept ranges Lo2/Hi2).
 
@@ -58,7 +59,9 @@
        DelimLaw               ReadBytes: err # nil  <=>  returned bytes do not end in delim
        EofLaw                 EOF is reported only on an empty buffer (and not for Read(len 0))
        ResetLaw               every call that empties via Reset leaves the state New(<<>>)
-       Utf8RoundTrip, Utf8Strict (ASSUME)   the UTF-8 encode/decode tables agree with each other   *)
+       Utf8RoundTrip, Utf8Strict (ASSUME)   the UTF-8 encode/decode tables agree with each other
+     BufferImpl.tla checks with TLC that the storage algorithm of bytes.Buffer (capacity, slide,
+     reallocation) refines this capacity-free model (invariants Agree, Rel).                      *)
 EXTENDS Integers, Sequences, FiniteSets, TLC
 
 CONSTANTS
@@ -231,6 +234,7 @@ OpWriteTo(s, wn, werr) ==
 
 OpLen(s) == R(s, Len(s.data), 0, <<>>, Nil, NoPanic)
 OpContents(s) == R(s, 0, 0, s.data, Nil, NoPanic)                \* Bytes() and String()
+OpNilString(s) == R(s, 0, 0, <<60, 110, 105, 108, 62>>, Nil, NoPanic)   \* String() on a nil pointer: "<nil>"
 
 -----------------------------------------------------------------------------
 (* the exhaustive model: every call with every argument of the constant sets, from every state *)
